@@ -568,6 +568,25 @@ impl ErasedNode for Node {
             }
         });
         state.set_height(self.packed(), h.get());
+        if let Some(Kind::BindLhsChange { bind }) = self.kind() {
+            /* Nodes created on the rhs can be kept necessary from outside the bind (an observer
+            on one of them) while the bind itself is unnecessary. If the lhs grew taller in the
+            meantime, we come back higher than those nodes, and nothing else restores "a node
+            is higher than the bind that created it": do what adjust_heights does when a
+            bind-lhs-change node is raised. */
+            let rnodes: Vec<NodeRef> = bind
+                .all_nodes_created_on_rhs
+                .borrow()
+                .iter()
+                .filter_map(Weak::upgrade)
+                .collect();
+            for rnode in rnodes {
+                if rnode.is_necessary() && rnode.height() <= self.height() {
+                    let mut ah_heap = state.adjust_heights_heap.borrow_mut();
+                    ah_heap.adjust_heights(&state.recompute_heap, self.packed(), rnode);
+                }
+            }
+        }
         debug_assert!(!self.is_in_recompute_heap());
         debug_assert!(self.is_necessary());
         if self.is_stale() {
